@@ -19,7 +19,7 @@ func init() {
 			"C18-R2 package parser has no go statement and no select, and sends on the three channels occur only in the exported methods of Parser; " +
 			"C18-R3 the send language of ParseStream and ParseFile (with the callback parser inlined) is N* E? D on every terminating path: no record after an error, at most one error, exactly one Done, last; " +
 			"C18-R4 a non-nil result of the callback parser (or of opening the file) is always sent on Errors.",
-		NotDecided: "liveness of a consumer that stops listening (the producer then blocks by design); equality of the delivered records with the callback parser's (they are the same objects)",
+		NotDecided:  "liveness of a consumer that stops listening (the producer then blocks by design); equality of the delivered records with the callback parser's (they are the same objects)",
 		Assumptions: []string{"an unbuffered channel send completes only when a receiver takes the value"},
 		Run: func(c *core.Ctx) {
 			ruleChanUnbuffered(c, "C18-R1")
